@@ -33,6 +33,60 @@ pub fn scenarios() -> Vec<Scenario> {
     ]
 }
 
+/// Finding probes (see README "Finding probes"): run once per run, report, never fail.
+pub fn probes() -> Vec<Scenario> {
+    let mut s = scn!(probe_taproot_signature_odd_y);
+    for slot in s.runs.iter_mut().take(5) {
+        *slot = None;
+    }
+    vec![s]
+}
+
+/// KNOWN literal deviation from the text of C12 (value round trip of every transmittable type), Taproot suite
+/// only: `aggregate` may return a signature whose R has odd Y; the 64-byte BIP-340 encoding is x-only, so decoding
+/// it gives the even-Y point: `Signature::deserialize(sig.serialize()) != sig` although the encoding round trip
+/// holds and both values verify.  The scenarios' oracle is restricted accordingly (README, "Oracle restrictions").
+pub fn probe_taproot_signature_odd_y<C: Suite>(rng: &mut TestRng, _p: &Params, notes: &mut Notes) -> Verdict {
+    const TRIES: usize = 64;
+    let (shares, pubkeys) = need(
+        keys::generate_with_dealer::<C, _>(3, 2, keys::IdentifierList::Default, &mut *rng),
+        "generate_with_dealer(3, 2)",
+    )?;
+    let mut kps = BTreeMap::new();
+    for (id, s) in &shares {
+        kps.insert(*id, need(KeyPackage::<C>::try_from(s.clone()), "KeyPackage::try_from")?);
+    }
+    let signers: Vec<Id<C>> = kps.keys().take(2).copied().collect();
+    for attempt in 0..TRIES {
+        let message = format!("finding probe: taproot-signature-odd-y, attempt {attempt}");
+        let sess = need(run_session::<C>(rng, &kps, &signers, message.as_bytes(), false), "signing session")?;
+        let sig = need(fc::aggregate::<C>(&sess.package, &sess.shares, &pubkeys), "aggregate")?;
+        let r_before = elem_bytes::<C>(sig.R());
+        if r_before.first() != Some(&0x03) {
+            continue;
+        }
+        notes.insert("odd_y_group_commitment_at_attempt".into(), json!(attempt));
+        let bytes = need(sig.serialize(), "Signature::serialize")?;
+        let back = need(fc::Signature::<C>::deserialize(&bytes), "Signature::deserialize of its own encoding")?;
+        if back == sig {
+            return Ok(());
+        }
+        return finding(
+            "taproot-signature-odd-y-not-value-roundtrip",
+            format!(
+                "aggregate returned a signature whose R has odd Y (attempt {attempt}); Signature::deserialize(sig.serialize()) != sig: \
+                 R before {} / after {} (the 64-byte encoding is x-only; re-encoding gives the same {} bytes: {})",
+                hex(&r_before),
+                hex(&elem_bytes::<C>(back.R())),
+                bytes.len(),
+                back.serialize().map(|b| b == bytes).unwrap_or(false)
+            ),
+        );
+    }
+    notes.insert("odd_y_group_commitment_at_attempt".into(), json!(null));
+    Ok(())
+}
+
 // ------------------------------------------------------------------------------------------------
 // the sweep machinery
 
